@@ -6,12 +6,7 @@ From AK Require Import Base.Prelude Bytes.Text Bytes.FabHeader Bytes.FabHeaderPr
   Reader.LayoutProofs Reader.ReadProofs Reader.IterProofs
   Plotfile.TextHeader Taste.Taste Plotfile.Abstract
   Writers.Colander Writers.ColanderSpec Writers.ColanderProofs Writers.Combine.
-
-(* the combined box: index range of the first source, the selected
-   components of the first followed by the selected components of the second *)
-Definition merge_fab (v1 v2 : list Z) (fb1 fb2 : fab) : fab :=
-  {| fab_lo := fab_lo fb1; fab_hi := fab_hi fb1; fab_nc := blen v1 + blen v2;
-     fab_data := concat (map (fab_comp fb1) v1) ++ concat (map (fab_comp fb2) v2) |}.
+From AK Require Export Writers.CombineSpec.
 
 Lemma whole_payload pre fb post : fab_ok fb = true ->
   fromfile (pre ++ encode_fab fb ++ post) (blen pre + blen (fab_hdr fb)) (zprod (fab_shape fb ++ [fab_nc fb]))
